@@ -43,6 +43,15 @@ fn main() {
         bad += 1;
         println!("MISMATCH shared_tail_lists total={}", total);
     }
+    if arg(7, 0) != 1 && rounds > 0 {
+        let roots = vec![build_repetition_root(seed), build_root(seed ^ 5, turns, true)];
+        let (pb, pn) = pool_round(&roots, 2, threads, seed, 2, 1500);
+        nodes += pn * threads * 2;
+        if pb > 0 {
+            bad += 1;
+            println!("MISMATCH pool_round: {} answers differ from the sequential ones over a pool of {} states", pb, pn);
+        }
+    }
     if arg(7, 0) != 1 {
         let (span, n) = concurrent_last_owner_drop(1500, threads.min(4).max(2), 30);
         if span > 8 * 1024 {
